@@ -501,6 +501,34 @@ def html_task(task, ctx: Ctx):
                 col += wdt
             if hits > 1:
                 ctx.violation("html-one-cursor", "C04/html-one-cursor", case, f"{hits} cursor spans in {lines[cy]!r}")
+            # against the same canvas drawn without a cursor: the colours differ in at most one character, the one under the cursor
+            try:
+                g.draw_screen(size, mk_canvas(rows, None, size[0], "utf-8"))
+                base = HtmlGenerator.fragments[-1][len("<pre>") : -len("</pre>")].split("\n")[:-1]
+            except Exception:
+                base = None
+            if base is not None and len(base) == len(lines):
+                def per_char(line):
+                    out = []
+                    for fg, bg, t in SPAN.findall(line):
+                        out += [(ch, fg, bg) for ch in htmlmod.unescape(t)]
+                    return out
+
+                diffs = []
+                for y, (la, lb_) in enumerate(zip(lines, base)):
+                    a, b = per_char(la), per_char(lb_)
+                    if len(a) != len(b):
+                        diffs.append((y, "length", 0))
+                        continue
+                    col = 0
+                    for (ch, f1, b1), (_c2, f2, b2) in zip(a, b):
+                        wch = max(W.cwidth(ch), 1) if ch != "" else 1
+                        if (f1, b1) != (f2, b2):
+                            diffs.append((y, col, wch))
+                        col += wch
+                if len(diffs) > 1 or any(d[0] != cy or d[1] == "length" or not d[1] <= cur[0] < d[1] + d[2] for d in diffs):
+                    ctx.violation("html-one-cursor", "C04/html-one-cursor/highlighted-cells", case,
+                                  f"compared with the same canvas without a cursor, the colours differ at (row, column) {diffs}; the cursor is at {cur}")
         ctx.distinct("nontrivial", ("html", size, rows, cur))
 
 
